@@ -299,13 +299,22 @@ func (b Builder) abiExtendedFields(t types.Type, name string) (fields []llvm.Val
 		hash := b.Pkg.rtFunc("typehash")
 		env := b.abiType(t.Key())
 		hasher := b.aggregateValue(prog.Type(hashFunc, InGo), hash.impl, env.impl)
+		// Keys and elems that are too large are stored indirectly: the slot in
+		// the bucket then holds a pointer, and that is the size the runtime needs.
+		keySize, elemSize := prog.abi.Size(t.Key()), prog.abi.Size(t.Elem())
+		if keySize > abi.MAXKEYSIZE {
+			keySize = uintptr(prog.PointerSize())
+		}
+		if elemSize > abi.MAXELEMSIZE {
+			elemSize = uintptr(prog.PointerSize())
+		}
 		fields = []llvm.Value{
 			b.abiType(abi.PublicType(t.Key())).impl,
 			b.abiType(abi.PublicType(t.Elem())).impl,
 			b.abiType(bucket).impl,
 			hasher.impl,
-			prog.IntVal(uint64(prog.abi.Size(t.Key())), prog.Byte()).impl,
-			prog.IntVal(uint64(prog.abi.Size(t.Elem())), prog.Byte()).impl,
+			prog.IntVal(uint64(keySize), prog.Byte()).impl,
+			prog.IntVal(uint64(elemSize), prog.Byte()).impl,
 			prog.IntVal(uint64(prog.abi.Size(bucket)), prog.Uint16()).impl,
 			prog.IntVal(uint64(flags), prog.Uint32()).impl,
 		}
